@@ -31,7 +31,7 @@ var props = map[string]propCfg{
 	"C02": {QuickShards: 4, ThoroughShards: 16, Level: "exploration",
 		Rule:        "C01 generators restricted to MQTT-well-formed packets; oracle = differential: the independent strict decoder must accept the library's frame and read back exactly the model (absent property = zero value). Non-trivial = frame carries >= 1 property, or a will, or a multi-byte remaining/property length; distinct = fingerprint of the frame.",
 		Assumptions: append([]string{refAssumption}, commonAssumptions...)},
-	"C03": {QuickShards: 4, ThoroughShards: 16, Level: "exploration",
+	"C03": {QuickShards: 4, ThoroughShards: 16, Level: "exploration", Fuzz: []string{"FuzzValidFrame"}, FuzzTime: 150 * time.Second,
 		Rule:        "frames produced by the reference encoder from spec-valid abstract packets in generated styles (property order, explicit zero-valued properties, short forms); oracle = ReadPacket accepts and accessors equal the model. Non-trivial = frame differs from what the library's own encoder emits for the same model; distinct = fingerprint of the frame.",
 		Assumptions: append([]string{refAssumption}, commonAssumptions...)},
 	"C04": {QuickShards: 4, ThoroughShards: 16, Level: "exploration", Fuzz: []string{"FuzzReadPacket", "FuzzUnmarshal"}, FuzzTime: 150 * time.Second,
@@ -41,7 +41,7 @@ var props = map[string]propCfg{
 		Rule:        "C04-style byte strings weighted towards repeated sections (filter lists, reason-code lists, property lists, subscription identifiers) truncated / empty / inconsistent / very long; oracle = the call returns (watchdog, confirmed alone in a fresh process; complete frames also on a stream that stays open), bytes allocated <= 1 MiB + 512 x frame size, no list of a returned packet has more elements than the frame has bytes, packets returned earlier (last 8 + one sentinel per type) do not change, and a 32x longer list costs <= 200x the thread CPU time (7 list kinds). Non-trivial = frame reaches a repeated section and is malformed there, or has >= 256 list elements; distinct = fingerprint of the frame.",
 		Assumptions: append([]string{"allocation is metered with runtime.MemStats.TotalAlloc around a single-goroutine call", "hang threshold 10 s / 1 GiB heap per call, re-confirmed alone"}, commonAssumptions...)},
 	"C06": {QuickShards: 4, ThoroughShards: 16, Level: "exploration",
-		Rule:        "sequences of 1..8 frames (valid frames from both encoders, content-malformed frames, zero-length frames) followed by arbitrary trailing bytes on one counting reader offered as scripted reader, bytes.Reader, bytes.Buffer, bufio.Reader or a reader with a chunk-wise Len(), contiguous / bytewise / last bytes with io.EOF / stream staying open, after a prelude of unrelated (also truncated) reads; oracle = after every call exactly the bytes of the frames so far were consumed (frame length from the reference framing parser), every result equals the result of reading that frame alone, then io.EOF. Non-trivial = >= 2 frames and a rejected or zero-length frame that is not last; distinct = fingerprint of the stream.",
+		Rule:        "sequences of 1..8 frames (valid frames from both encoders, content-malformed frames, zero-length frames) followed by arbitrary trailing bytes on one counting reader offered as scripted reader, bytes.Reader, bytes.Buffer, bufio.Reader or a reader with a chunk-wise Len(), contiguous / bytewise / last bytes with io.EOF / stream staying open, after a prelude of unrelated (also truncated) reads; oracle = after every call exactly the bytes of the frames so far were consumed (frame length from the reference framing parser), every result equals the result of reading that frame alone before the stream was touched (PUBLISH frames using / defining a few topic aliases included), then io.EOF. Non-trivial = >= 2 frames and a rejected or zero-length frame that is not last; distinct = fingerprint of the stream.",
 		Assumptions: append([]string{refAssumption}, commonAssumptions...)},
 	"C07": {QuickShards: 4, ThoroughShards: 16, Level: "exploration",
 		Rule:        "frames x delivery schedules allowed by io.Reader (all compositions of the frame length for short frames, generated schedules with zero-length reads and data+EOF endings for long ones, optionally behind another frame on the same stream with a read boundary inside the next header) x concrete reader types; oracle = metamorphic: same packet (accessors and re-encoding) or same rejection as one contiguous read. Non-trivial = schedule splits the body or the remaining-length field, contains a (0,nil) read, or ends with data+EOF; distinct = fingerprint of (frame, schedule).",
@@ -49,8 +49,8 @@ var props = map[string]propCfg{
 	"C08": {QuickShards: 4, ThoroughShards: 16, Level: "fault_enumeration",
 		Rule:        "frames x every cut offset k in [0,len) (all k for frames <= 512 bytes) x failure kind (EOF, a fresh error value, io.ErrUnexpectedEOF itself, errors wrapping io.EOF / io.ErrUnexpectedEOF, timeout, deadline, closed pipe; sticky or reported once; alone or together with the last bytes) x delivery of the prefix x reader type; oracle = nil packet and non-nil error, errors.Is(err, injected), errors.Is(err, io.EOF) at k = 0, and a packet only when every byte was delivered. Non-trivial = k inside the body; distinct = fingerprint of (frame, k, failure kind, delivery).",
 		Assumptions: commonAssumptions},
-	"C09": {QuickShards: 4, ThoroughShards: 16, Level: "exploration", Fuzz: nil,
-		Rule:        "valid frames from the reference encoder x (a) every cut strictly inside a field per the reference field map with remaining length patched, (b) each variable byte integer replaced by a 5-byte continuation, (c) each of the seven boolean properties x values 2..255, (d) each property position x all 229 undefined identifiers; oracle = ReadPacket returns (nil, error). Every mutated frame is non-trivial; distinct = fingerprint of the mutated frame.",
+	"C09": {QuickShards: 4, ThoroughShards: 16, Level: "exploration", Fuzz: []string{"FuzzMustReject"}, FuzzTime: 150 * time.Second,
+		Rule:        "valid frames from the reference encoder x (a) every cut strictly inside a field per the reference field map with remaining length patched, (b) each variable byte integer replaced by a 5-byte continuation, (c) each of the seven boolean properties x values 2..255, (d) each property position x all 229 undefined identifiers; oracle = ReadPacket returns (nil, error); each constructed frame is also classified from its bytes alone by the reference decoder (agreement counted under coverage.classes). Every mutated frame is non-trivial; distinct = fingerprint of the mutated frame.",
 		Assumptions: append([]string{refAssumption}, commonAssumptions...)},
 	"C10": {QuickShards: 4, ThoroughShards: 16, Level: "exploration",
 		Rule:        "C01 packets plus malformed-but-constructible ones x writers that succeed, fail before accepting anything, or accept exactly k bytes (every k for frames <= 256 bytes); oracle = bytes seen are exactly one frame under the reference framing parser, returned n = bytes accepted = 'N bytes' in String(), writer errors are returned with n = k, Undefined writes nothing. Non-trivial = multi-byte remaining/property length, optional section present, or a faulting writer; distinct = fingerprint of (frame, writer).",
@@ -65,22 +65,22 @@ var props = map[string]propCfg{
 		Rule:        "packets of every type (CONNECT sharing its will with direct use) x 2..8 goroutines running generated lists of read-only operations from a common barrier, under the Go race detector; oracle = no race report and every concurrent WriteTo equals the sequential bytes. Non-trivial = >= 2 goroutines with a WriteTo in one and a different operation in another; distinct = fingerprint of (model, operation lists).",
 		Assumptions: append([]string{"Go race detector (happens-before; no false positives, finds races on executed paths)"}, commonAssumptions...)},
 	"C14": {QuickShards: 4, ThoroughShards: 16, Level: "exploration",
-		Rule:        "state-machine histories over a pool of packets and the byte slices they were decoded from: decode (UnmarshalBinary from a retained slice, ReadPacket from a reused buffer), scribble over a retained slice, encode, apply a setter, decode the same frame again; oracle = every packet not named by the action keeps its accessor snapshot and repeated decodes of a frame observe equal. Non-trivial = a scribble after decoding a frame with a non-empty string/binary/raw field with >= 2 live packets; distinct = fingerprint of the history.",
+		Rule:        "state-machine histories over a pool of packets and the byte slices they were decoded from: decode (UnmarshalBinary from a retained slice, ReadPacket from a reused buffer), scribble over a retained slice, encode, apply a setter, hand a value returned by an accessor of one packet to a setter of another (or of a new packet of that type) and go on setting both, decode the same frame again; oracle = every packet not named by the action keeps its accessor snapshot and repeated decodes of a frame observe equal. Non-trivial = a scribble after decoding a frame with a non-empty string/binary/raw field with >= 2 live packets; distinct = fingerprint of the history.",
 		Assumptions: commonAssumptions},
 	"C15": {QuickShards: 1, ThoroughShards: 1, Level: "exploration", ThoroughTO: 90 * time.Minute,
 		Rule:        "variable byte integers through the verif-tagged wrappers: values (thorough: all 2^28; quick: boundary neighbourhoods + stride sweep) encoded and compared with the reference minimal form, decoded by both decoders (value, bytes consumed); byte sequences (thorough: all of length <= 4 and all 2^28 continuation prefixes x 5 fifth bytes; quick: all of length <= 2 + drawn longer ones) for decoder agreement and rejection. Non-trivial = value needing >= 2 bytes or a sequence that must be rejected; distinct = the value / sequence itself.",
 		Assumptions: append([]string{"hook verif_export.go exposes the unexported codec unchanged", refAssumption}, commonAssumptions...)},
 	"C16": {QuickShards: 1, ThoroughShards: 4, Level: "exploration",
-		Rule:        "all 256 first bytes x bodies valid for the selected type from the reference encoder (incl. remaining length 0 where allowed); oracle = dynamic type by table on the high nibble, PUBLISH DUP/QoS/RETAIN equal the bits, re-encoding reproduces the first byte, Undefined carries the body. Non-trivial = low nibble differs from the constructor default; distinct = fingerprint of the frame.",
+		Rule:        "all 256 first bytes x bodies valid for the selected type from the reference encoder (incl. remaining length 0 where allowed; a quarter of the bodies unconstrained, judged only when a packet is returned); oracle = dynamic type by table on the high nibble, PUBLISH DUP/QoS/RETAIN equal the bits, re-encoding reproduces the first byte, Undefined carries the body. Non-trivial = low nibble differs from the constructor default; distinct = fingerprint of the frame.",
 		Assumptions: append([]string{refAssumption}, commonAssumptions...)},
 	"C17": {QuickShards: 2, ThoroughShards: 16, Level: "exploration",
-		Rule:        "Publish over the complete condition cube topic x alias x QoS 0..3 x packet id plus generated other fields; Subscribe over filter count, subscription identifier around 268435455, all 256 option bytes, empty/non-empty filters; built through the API and decoded from the wire; oracle = reference predicate from the statement equals error-ness of WellFormed and presence of the 'malformed!' suffix in String(). Non-trivial = accepting side of one condition while another field is at a suspicious value; distinct = fingerprint of the case.",
+		Rule:        "Publish over the complete condition cube topic x alias x QoS 0..3 x packet id plus generated other fields; Subscribe over filter count, subscription identifier around 268435455, all 256 option bytes, empty/non-empty filters; built through the API and decoded from the wire, stand-alone, after being passed to Connect.SetWill, and as the Will() of a decoded CONNECT; oracle = reference predicate from the statement equals error-ness of WellFormed and presence of the 'malformed!' suffix in String(). Non-trivial = accepting side of one condition while another field is at a suspicious value; distinct = fingerprint of the case.",
 		Assumptions: commonAssumptions},
 	"C18": {QuickShards: 2, ThoroughShards: 16, Level: "exploration",
 		Rule:        "CONNECT models (with/without will, properties, auth fields) x pairs of equally long non-empty credential values incl. values copied from other fields, built through the API and decoded from frames; oracle = non-interference: Dump and String identical for both. Non-trivial = credentials differ in >= 1 byte; distinct = fingerprint of (model, credential pair).",
 		Assumptions: commonAssumptions},
 	"C19": {QuickShards: 4, ThoroughShards: 16, Level: "exploration",
-		Rule:        "zero values and constructor values of every exported type, packets under construction (prefixes of setter sequences), packets decoded from arbitrary bytes (and half-filled values left by failing decodes), all 256 values of each rendered byte; oracle = String and Dump return normally. Non-trivial = value not obtainable from a constructor plus the unit tests' setter order (decoded, half-built, out-of-table byte); distinct = fingerprint of the value's origin.",
+		Rule:        "zero values and constructor values of every exported type, packets under construction (prefixes of setter sequences, then calls whose Go parameter type is wider than the MQTT range, e.g. SetSubscriptionID(-1), SetQoS(200)), packets decoded from arbitrary bytes (and half-filled values left by failing decodes), all 256 values of each rendered byte; oracle = String and Dump return normally. Non-trivial = value not obtainable from a constructor plus the unit tests' setter order (decoded, half-built, out-of-table byte); distinct = fingerprint of the value's origin.",
 		Assumptions: commonAssumptions},
 }
 
